@@ -13,3 +13,13 @@ pub(crate) fn any_stress() -> StressKind {
     kani::assume(k < 3);
     match k { 0 => StressKind::Primary, 1 => StressKind::Secondary, _ => StressKind::Unstressed }
 }
+
+// vacuity canary for the Kani side: this assertion is false and MUST be reported as failing
+// (thorough tier; if it ever "proves", the pipeline is not checking anything -> undecided)
+//% props=C02,C03,C04,C05,C07,C08,C10,C12,C13,C14,C18 tier=thorough kind=P expect=fail clause="canary: must fail"
+#[kani::proof]
+#[kani::unwind(2)]
+fn k0_canary_must_fail() {
+    let x: u8 = kani::any();
+    assert!(x != 77, "canary");
+}
